@@ -1000,6 +1000,16 @@ def chiaverini(dcm: np.ndarray) -> np.ndarray:
         q[1] = 0.5*np.sign(dcm[2, 1]-dcm[1, 2])*np.sqrt(np.clip(dcm[0, 0]-dcm[1, 1]-dcm[2, 2], -1.0, 3.0)+1.0)
         q[2] = 0.5*np.sign(dcm[0, 2]-dcm[2, 0])*np.sqrt(np.clip(dcm[1, 1]-dcm[2, 2]-dcm[0, 0], -1.0, 3.0)+1.0)
         q[3] = 0.5*np.sign(dcm[1, 0]-dcm[0, 1])*np.sqrt(np.clip(dcm[2, 2]-dcm[0, 0]-dcm[1, 1], -1.0, 3.0)+1.0)
+        if q[0] < 0.5:
+            # Close to a half-turn the matrix is almost symmetric: the differences above vanish (or are rounding noise) and
+            # leave the signs undetermined. Take them from the sums of the off-diagonal elements, relative to the largest component.
+            mag = 0.5*np.sqrt(np.clip([dcm[0, 0]-dcm[1, 1]-dcm[2, 2], dcm[1, 1]-dcm[2, 2]-dcm[0, 0], dcm[2, 2]-dcm[0, 0]-dcm[1, 1]], -1.0, 3.0)+1.0)
+            i = np.argmax(mag)
+            sgn = np.sign(dcm[i] + dcm[:, i])
+            sgn[i] = 1.0
+            if [dcm[2, 1]-dcm[1, 2], dcm[0, 2]-dcm[2, 0], dcm[1, 0]-dcm[0, 1]][i] < 0:
+                sgn *= -1.0
+            q[1:] = sgn*mag
         if not any(q):
             q[0] = 1.0
         q /= np.linalg.norm(q)
@@ -1009,6 +1019,8 @@ def chiaverini(dcm: np.ndarray) -> np.ndarray:
     Q[:, 1] = 0.5*np.sign(dcm[:, 2, 1] - dcm[:, 1, 2])*np.sqrt(np.clip(dcm[:, 0, 0]-dcm[:, 1, 1]-dcm[:, 2, 2], -1.0, 3.0) + 1.0)
     Q[:, 2] = 0.5*np.sign(dcm[:, 0, 2] - dcm[:, 2, 0])*np.sqrt(np.clip(dcm[:, 1, 1]-dcm[:, 2, 2]-dcm[:, 0, 0], -1.0, 3.0) + 1.0)
     Q[:, 3] = 0.5*np.sign(dcm[:, 1, 0] - dcm[:, 0, 1])*np.sqrt(np.clip(dcm[:, 2, 2]-dcm[:, 0, 0]-dcm[:, 1, 1], -1.0, 3.0) + 1.0)
+    for n in np.nonzero(Q[:, 0] < 0.5)[0]:      # Close to a half-turn: signs from the symmetric part (see the single-matrix case above)
+        Q[n] = chiaverini(dcm[n])
     Q[~Q.any(axis=1), 0] = 1.0
     Q /= np.linalg.norm(Q, axis=1)[:, None]
     return Q
